@@ -458,11 +458,21 @@ pub fn c13(ctx: &Ctx) -> i32 {
 pub fn c14(ctx: &Ctx) -> i32 {
     let mout = run_market_spec(ctx, "c14", MK_ASSET, &[0, 1, 2, 3, 4, 5], ctx.tier.pick(20_000, 400_000), 200);
     let espec = EnvSpec { check: "c14", flags: E_ASSET | E_STEP | E_REC, env_types: multi_types(), sessions: ctx.tier.pick(10_000, 250_000), max_steps: 25, toggle_rate: 0.05, offgrid_rate: 0.0 };
-    let eout = run_env_spec(ctx, &espec);
+    let mut eout = run_env_spec(ctx, &espec);
+    // crowded multi-asset steps (more instructions than the step has time units): the shared clock still hands every
+    // processed instruction its own time-stamp, whichever asset it belongs to
+    let ospec = EnvSpec { check: "c14", flags: E_ASSET | E_OVERFULL, env_types: multi_types(), sessions: ctx.tier.pick(4000, 80_000), max_steps: 20, toggle_rate: 0.03, offgrid_rate: 0.0 };
+    let oout = run_env_spec(ctx, &ospec);
+    let overfull_steps = oout.census.steps;
+    let overfull_batches = oout.census.overfull_batches;
+    eout.violations.extend(oout.violations);
+    eout.inconclusive.extend(oout.inconclusive);
+    eout.distinct.merge(oout.distinct);
     let m = &mout.census;
     let mut violations = mout.violations;
     violations.extend(eout.violations);
     let mut inconclusive = floors(&[
+        ("env_overfull_batches", overfull_batches, 1000),
         ("market_ops", m.ops, 100_000),
         ("market_trades", m.trades, 5000),
         ("shared_local_ids_with_different_contents", m.shared_local_ids_with_different_contents, 10_000),
@@ -481,10 +491,10 @@ pub fn c14(ctx: &Ctx) -> i32 {
     let cov = json!({
         "evaluations": m.sessions + eout.census.steps,
         "distinct_nontrivial": d.len(),
-        "rule": "cases = market sessions (Market<1|2|3|4 assets> with distinct per-asset ticks; create / create_and_place / place / cancel / modify / process_event / get_order_book_mut / set_time / toggles / reset / snapshot reload, assets interleaved at random) and MarketEnv steps (shuffled batches across assets); after every operation each asset's complete observable snapshot is compared with a stand-alone single-asset book fed that asset's operations at the same times, all per-asset and all-asset queries are compared in asset order, and returned ids must be (asset, per-asset sequence number); distinct = distinct operation logs / (batch shape, schedule) pairs; non-trivial = at least two assets hold the same local ids with different contents and both traded (market part), batches with >= 2 instructions (environment part)",
+        "rule": "cases = market sessions (Market<1|2|3|4 assets> with distinct per-asset ticks; create / create_and_place / place / cancel / modify / process_event / get_order_book_mut / set_time / toggles / reset / snapshot reload, assets interleaved at random) and MarketEnv steps (shuffled batches across assets); after every operation each asset's complete observable snapshot is compared with a stand-alone single-asset book fed that asset's operations at the same times, all per-asset and all-asset queries are compared in asset order, and returned ids must be (asset, per-asset sequence number); distinct = distinct operation logs / (batch shape, schedule) pairs; non-trivial = at least two assets hold the same local ids with different contents and both traded (market part), batches with >= 2 instructions (environment part; a second family of sessions carries more instructions per step than the step size)",
         "samples": samples,
         "market_part": {"census": m},
-        "environment_part": {"census": eout.census},
+        "environment_part": {"census": eout.census, "overfull_sessions": {"steps": overfull_steps, "overfull_batches": overfull_batches}},
     });
     ctx.finish("exploration", cov, env_assumptions(), violations, inconclusive)
 }
